@@ -153,6 +153,17 @@ def impl_observe(text, tmp, full_reader=False):
     obs["fs"] = guarded(spikeglx._get_fs_from_meta, md)
     obs["maxint"] = guarded(spikeglx._get_max_int_from_meta, md)
     obs["async"] = guarded(spikeglx._get_analog_sync_trace_indices_from_meta, md)
+    # the optional neuropixel_version argument
+    obs["maxint_3A"] = guarded(spikeglx._get_max_int_from_meta, md, "3A")
+    obs["maxint_NP24"] = guarded(spikeglx._get_max_int_from_meta, md, "NP2.4")
+    # the getters on a plain dict instead of the Bunch returned by read_meta_data
+    pd = dict(md)
+    same = True
+    for name, f in (("version", spikeglx._get_neuropixel_version_from_meta), ("type", spikeglx._get_type_from_meta),
+                    ("nc", spikeglx._get_nchannels_from_meta), ("sync", spikeglx._get_sync_trace_indices_from_meta),
+                    ("fs", spikeglx._get_fs_from_meta), ("maxint", spikeglx._get_max_int_from_meta)):
+        same = same and guarded(f, pd) == obs[name]
+    obs["plain_dict_same"] = bool(same)
     with warnings.catch_warnings(), np.errstate(all="ignore"):
         warnings.simplefilter("ignore")
         obs["s2v"] = guarded(spikeglx._conversion_sample2v_from_meta, md)
@@ -283,6 +294,9 @@ def enc_impl(obs, model_out):
     out += [0] if (not ok or mj is None) else [1, {1: 1, 2: 2, 2.4: 3, "NPultra": 4}.get(mj, -9)]
     ok, a = obs["async"]
     out += [0] if not ok else [1, len(a), a[0] if len(a) else 0]
+    for name in ("maxint_3A", "maxint_NP24"):
+        ok, mi = obs[name]
+        out += enc_zopt(mi if ok else None)
     return out, why
 
 
@@ -504,6 +518,10 @@ def gen_probe(rng, big=False):
             mi = 32768
         it["maxint"] = mi
         it["subset_prefix"] = True
+        it["era3A"] = rng.random() < 0.3
+        if it["era3A"]:                 # nidq stream of a 3A (phase 3A / imec-option era) recording
+            L.append("typeEnabled=" + rng.choice(["imec,nidq", "nidq"]))
+            it["version"] = "3A"
     else:
         stream = rng.choice(["ap", "lf"])
         if kind in ("NP2.1", "NP2.4"):
@@ -723,6 +741,9 @@ def oracle_seq(obs, in_grammar):
     """str vs Path arguments; write / read / write / read on one path that held a longer file"""
     s = obs["seq"]
     bad = []
+    if not obs.get("plain_dict_same", True):
+        bad.append(("the *_from_meta getters differ between a plain dict and the Bunch returned by read_meta_data",
+                    "plain_dict"))
     if obs.get("mutated"):
         bad.append(("a metadata function changed the dictionary it was given", "mutates_input"))
     if not s["read_str_eq_path"] or not s["write_str_eq_path"]:
@@ -751,7 +772,17 @@ def oracle_probe(obs, it):
     md = obs["md"]
     if md.get("neuropixelVersion") != it["version"] or val("version") != it["version"] or val("r_version") != it["version"]:
         bad.append(("probe generation %r, expected %r" % (obs["version"], it["version"]), "version"))
-    want_major = {"3A": 1, "3B1": 1, "3B2": 1, "NP2.1": 2, "NP2.4": 2.4, "NPultra": "NPultra", "nidq": None}[it["kind"]]
+    want_major = {"3A": 1, "3B1": 1, "3B2": 1, "NP2.1": 2, "NP2.4": 2.4, "NPultra": "NPultra", None: None}[it["version"]]
+    np2 = it["version"] in ("NP2.1", "NP2.4")
+    if it["kind"] != "nidq":
+        has_mi = any(l.startswith("imMaxInt=") for l in it["lines"]) if "lines" in it else None
+        if has_mi is not None:
+            w3a = it["maxint"] if (has_mi or not np2) else 512
+            wnp = it["maxint"] if has_mi else None
+            if obs["maxint_3A"] != (True, w3a):
+                bad.append(("max int with neuropixel_version='3A' is %r, expected %r" % (obs["maxint_3A"], w3a), "maxint_arg"))
+            if (obs["maxint_NP24"][1] if obs["maxint_NP24"][0] else None) != wnp:
+                bad.append(("max int with neuropixel_version='NP2.4' is %r, expected %r" % (obs["maxint_NP24"], wnp), "maxint_arg"))
     if val("major") != want_major:
         bad.append(("major version %r, expected %r" % (obs["major"], want_major), "major"))
     asy = val("async")
@@ -831,7 +862,7 @@ def build_cases(ctx):
         cases.append({"cls": "bigdigits", "text": t, "exp": exp})
     for _ in range(12000 if th else 700):
         t, it = gen_probe(rng)
-        cases.append({"cls": "probe", "text": t, "intent": it})
+        cases.append({"cls": "probe", "text": t, "intent": it, "full": it["kind"] == "nidq"})
     for _ in range(150 if th else 14):
         t, it = gen_probe(rng, big=True)
         cases.append({"cls": "probe", "text": t, "intent": it, "full": True})
@@ -941,6 +972,10 @@ def run(ctx):
             dist["nonuniform_gain_tables"] += len(set(g for g in it["gains"] if g is not None)) > 1
             for what, kind in guard_case(ctx, desc, "derived-parameter oracle", oracle_probe, obs, it) or []:
                 ctx.fail(what, desc, {"kind": kind, "subset_prefix": bool(it["subset_prefix"]), "probe": it["kind"]})
+            if c.get("full") and it["kind"] == "nidq" and isinstance(obs.get("full"), str):
+                ctx.fail("Reader(meta file) of a nidq stream raises %s" % obs["full"][4:], desc,
+                         {"kind": "reader_init", "probe": "nidq", "era3A": bool(it.get("era3A"))})
+            dist["nidq_3A_era"] = dist.get("nidq_3A_era", 0) + bool(it.get("era3A"))
             if c.get("full"):
                 dist["full_reader"] += bool(guard_case(ctx, desc, "Reader oracle", check_full_reader, obs, ctx, desc))
             nontrivial.add(c["text"])
